@@ -6,11 +6,11 @@ PROP = {
     "subchecks": [
         # one case = the same scenario on a fresh epoll loop and on a fresh select loop (~1 ms under ASan)
         {"target": "c03_fdevents_rc", "sub": "fdevents",
-         "quick": {"cases": 25000, "max_size": 100, "workers": 8, "case_alarm": 60},
-         "thorough": {"cases": 500000, "max_size": 100, "workers": 12, "case_alarm": 60}},
+         "quick": {"cases": 20000, "max_size": 100, "workers": 8, "case_alarm": 60},
+         "thorough": {"cases": 300000, "max_size": 100, "workers": 12, "case_alarm": 60}},
         {"target": "c03_fdevents_fuzz", "sub": "fdevents",
-         "quick": {"runs": 40000, "max_len": 500, "workers": 3, "unit_timeout": 60},
-         "thorough": {"runs": 1000000, "max_len": 700, "workers": 4, "unit_timeout": 60}},
+         "quick": {"runs": 25000, "max_len": 500, "workers": 3, "unit_timeout": 60},
+         "thorough": {"runs": 600000, "max_len": 700, "workers": 4, "unit_timeout": 60}},
     ],
     "assumptions": [
         "callers stay within the asserted / documented preconditions: an event is never deleted inside its own callback (deferred delete through runNext instead), a descriptor is closed only after all its events were disabled, an event of a closed descriptor is never enabled again",
